@@ -251,7 +251,12 @@ pub fn gen_frame(r: &mut Rng) -> FrameCase {
     let n = r.range(1, 5);
     let mut steps = vec![];
     for k in 0..n {
-        let sql = r.pick(SQLS).to_string();
+        // (one request in forty is longer than a pipe buffer)
+        let sql = if r.chance(1, 40) {
+            format!("select '{}\n\"é' -- long", "a".repeat(70_000 + r.below(5000)))
+        } else {
+            r.pick(SQLS).to_string()
+        };
         let mut bytes = gen_reply_bytes(r);
         // sometimes two replies at once (the engine answers ahead) or garbage
         let kind;
